@@ -193,7 +193,10 @@ def install(sched, net, uuid_seed=0, line_codes=()):
     sel = N.SelectorsFacade(net)
     # every Pyro5 module attribute that is the time / threading / selectors module, or one of their blocking primitives
     # imported by name, is replaced (found dynamically: a changed tree may import them in other modules than today's)
-    by_identity = [(threading, tf), (_time, tm), (_selectors, sel),
+    import queue as _queue
+    qf = S.QueueFacade(sched)
+    by_identity = [(threading, tf), (_time, tm), (_selectors, sel), (_queue, qf), (_queue.Queue, qf.Queue),
+                   (_queue.SimpleQueue, qf.SimpleQueue), (_queue.LifoQueue, qf.LifoQueue), (_queue.PriorityQueue, qf.PriorityQueue),
                    (threading.Lock, tf.Lock), (threading.RLock, tf.RLock), (threading.Event, tf.Event),
                    (threading.Condition, tf.Condition), (threading.Semaphore, tf.Semaphore),
                    (threading.BoundedSemaphore, tf.BoundedSemaphore), (threading.Timer, tf.Timer),
